@@ -296,10 +296,19 @@ func init() {
 		},
 		Replay: func(c *Ctx, p json.RawMessage) {
 			var r struct {
-				S string `json:"s"`
+				S      string  `json:"s"`
+				Range  []int64 `json:"range"`
+				MaxLen int     `json:"maxlen"`
 			}
 			if err := json.Unmarshal(p, &r); err != nil {
 				c.Fail("%v", err)
+			}
+			if len(r.Range) == 2 {
+				exe, _ := os.Executable()
+				if c16Crashes(exe, r.MaxLen, r.Range[0], r.Range[1]) {
+					c.Violation("process-crash/after-earlier-calls", fmt.Sprintf("parsing items %d..%d of the enumeration in one process kills it", r.Range[0], r.Range[1]), r)
+				}
+				return
 			}
 			c16One(c, r.S)
 		},
@@ -459,7 +468,14 @@ func c16Range(c *Ctx, maxLen int, lo, hi int64) {
 		before := len(c.Res.Violations)
 		c16One(c, s)
 		if len(c.Res.Violations) == before && c.violKeys["unbounded-recursion"]+c.violKeys["hang"]+c.violKeys["process-crash"]+c.violKeys["out-of-memory"] == 0 {
-			c.Fail("child crashed in [%d,%d) but string %q alone does not: %s", wlo, whi, s, c16CrashLine(string(out)))
+			// the string alone is harmless: the failure needs what the process parsed before it. The counterexample is
+			// the batch (replayed as a whole), named by the string at which the child stopped.
+			if c16Crashes(exe, maxLen, lo, hi) {
+				c.Violation(c16CrashKey(string(out))+"/after-earlier-calls", fmt.Sprintf("ParseURI(%s) kills the process after it parsed items %d..%d of the enumeration (alone it does not): %s", quoteClip(s), lo, bad, c16CrashLine(string(out))),
+					map[string]interface{}{"range": []int64{lo, hi}, "maxlen": maxLen})
+			} else {
+				c.Fail("child crashed in [%d,%d) but neither string %q alone nor the batch again does: %s", wlo, whi, s, c16CrashLine(string(out)))
+			}
 		}
 		c.Eval(bad - lo)
 		c.Res.Exhaustive = false
